@@ -9,7 +9,8 @@ CFG = dict(
                 "$REPO/embedded/sql:sq_:EncLenLen,EncIDLen,KeyValPrefixNull,KeyValPrefixNotNull,KeyValPrefixUpperBound,MappedPrefix,RowPrefix"]],
     rule="boundary-heavy pools per SQL type (min/max/powers of two +-1 integers; +-0, subnormals, +-Inf, NaN payloads, "
          "neighbouring bit patterns; empty / NUL-containing / shared-prefix / max-length strings and blobs for column lengths "
-         "1..33 and MaxKeyLen; all-00/all-ff/single-byte-different UUIDs; timestamps around 1970, at both ends of the UnixNano "
+         "1..33 and MaxKeyLen, multi-byte UTF-8 (2/3/4-byte runes, truncated and invalid sequences) filling n-2..n bytes and "
+         "over-length strings with at most n characters but more than n bytes (the column length is a BYTE length); all-00/all-ff/single-byte-different UUIDs; timestamps around 1970, at both ends of the UnixNano "
          "range, years 1..9999, microsecond neighbours) plus seeded random values; every value goes through both encoders and both "
          "decoders, value PAIRS of one column (all pairs of the boundary pools, sampled pairs otherwise) through the key encoder and "
          "the engine's own Compare; encoder guard violations and mutated/random encodings to the decoders; rows of random tables "
@@ -28,7 +29,8 @@ CFG = dict(
         "UnixNano/TimeToInt64 wrap modulo 2^64 as Go's int64 arithmetic does",
         "NOT modelled (exercised by the harness as black-box round trips, direct check only): protobuf conversions "
         "(schema.TxHeaderToProto/FromProto, TxMetadata, KVMetadata, SQL value <-> schema.SQLValue), document <-> structpb "
-        "conversions, the JSON SQL type, implicit type conversions of mayApplyImplicitConversion (the harness always hands "
+        "conversions (documents inserted and read back; INTEGER fields at the float64/int64 boundaries 2^53, +-2^63 and "
+        "their neighbours must be rejected or indexed as the number the document holds: checked by comparison queries on the field), the JSON SQL type, implicit type conversions of mayApplyImplicitConversion (the harness always hands "
         "the encoders a value of the column's own Go type or nil), the row-level framing of encodeRowValue "
         "(exercised through the engine: rows inserted and read back)",
         "sql.MaxKeyLen is a Go variable: it is an explicit parameter `mkl` of the model and the theorems hold for every "
